@@ -211,3 +211,25 @@ var JSGrammarMinLevel = map[string]string{
 	"Element.Value": "OpAssign", "CommaExpr.List[]": "OpAssign", "TemplatePart.Expr": "OpExpr",
 	"GroupExpr.X": "OpExpr", "IndexExpr.Y": "OpExpr", "YieldExpr.X": "OpAssign",
 }
+
+// CSSValueShape groups the properties whose values have the same shape as far as a rewrite that works on value positions is
+// concerned (CSS Backgrounds 3, Box 4, Color 4, Flexbox 1, UI 4): properties of one group may share the code that rewrites
+// them, properties of different groups may not — `background-position-x: right 10px` is an edge and an offset on one axis,
+// in `background-position` the same two components are a horizontal and a vertical position.
+var CSSValueShape = func() map[string]string {
+	groups := map[string]string{
+		"sides":         `margin padding border-width scroll-margin scroll-padding inset`,
+		"line":          `border border-top border-right border-bottom border-left border-block border-inline border-block-start border-block-end border-inline-start border-inline-end outline column-rule`,
+		"color":         `color background-color border-top-color border-right-color border-bottom-color border-left-color border-block-start-color border-block-end-color border-inline-start-color border-inline-end-color text-decoration-color text-emphasis-color caret-color outline-color column-rule-color accent-color flood-color lighting-color stop-color fill stroke`,
+		"number":        `order flex-grow flex-shrink z-index orphans widows`,
+		"position":      `background-position mask-position object-position`,
+		"position-axis": `background-position-x background-position-y`,
+	}
+	out := map[string]string{}
+	for g, names := range groups {
+		for n := range set(names) {
+			out[n] = g
+		}
+	}
+	return out
+}()
